@@ -67,6 +67,22 @@ class Pool:
         ctx = mp.get_context("fork")
         self.pool = ctx.Pool(NPROC, initializer=_init_worker)
 
+    def map_async(self, fn_name, tasks):
+        pool = self
+
+        class _Res:
+            def __init__(self, ar):
+                self.ar = ar
+
+            def get(self, timeout):
+                out = []
+                for status, val in self.ar.get(timeout):
+                    if status != "ok":
+                        raise MachineryError(val)
+                    out.append(val)
+                return out
+        return _Res(pool.pool.map_async(_call, [(fn_name, t) for t in tasks], chunksize=1))
+
     def map(self, fn_name, tasks, chunksize=1):
         out = []
         for status, val in self.pool.imap(_call, [(fn_name, t) for t in tasks], chunksize=chunksize):
@@ -244,6 +260,12 @@ def run(pid, tier, replay_file=None):
     rep = Reporter(pid, tier)
     cf = TIERS[tier]
     common.use_repo()
+    # import the whole library BEFORE forking: the order in which an element's validators run is
+    # the iteration order of a set of classes (address-based), so recording and replaying workers
+    # must share one address layout for access indices to mean the same thing everywhere
+    import statham.schema.parser  # noqa: F401
+    import statham.schema.elements  # noqa: F401
+    import statham.schema.validation  # noqa: F401
     import threadsfamily as tf
     rng = random.Random(SEED * 7919 + 14)
     timing = OrderedDict()
@@ -278,69 +300,93 @@ def _run(pid, tier, cf, rep, tf, rng, timing, instances, pool, replay_file, t0):
                          paths=[[e[:3] for e in lg if e[0] in "rw"] for lg in r["progs"]]))
     key_of = {(r["case"], r["group"], r["variant"]): i for i, r in enumerate(recs)}
 
-    # ------------------------------------------------------------ TLC: part (i)
+    # ------------------------------------------------------------ TLC (three jobs, concurrently)
+    # The sweeps and the free-running rounds do not depend on TLC: the pool works on them while
+    # TLC runs.
     t1 = time.time()
-    bind = run_tlc("MC_Bind", "CONSTANTS\n Sel <- DataSel\n Full = FALSE\n Bursts = {}\n Cap = %d\n"
-                   "SPECIFICATION Spec\nINVARIANT Inv\nINVARIANT ExportProgs\nCHECK_DEADLOCK FALSE\n"
-                   % cf["cap"], workers=4, coverage=False)
-    if not bind.ok:
-        raise MachineryError("TLC failed on MC_Bind:\n" + bind.raw_tail[-3000:])
+    sweep_tasks, sweep_meta, sweep_n = _sweep_tasks(recs, refs, cf, rng)
+    sweep_async = pool.map_async("replay_many", sweep_tasks)
+    ftasks = [(r["case"], r["group"], r["variant"], cf["free_rounds"], 1, SEED, refs[i])
+              for i, r in enumerate(recs)]
+    free_async = pool.map_async("free_rounds", ftasks)
+
+    def job_bind():
+        b = run_tlc("MC_Bind", "CONSTANTS\n Sel <- DataSel\n Full = FALSE\n Bursts = {}\n Cap = %d\n"
+                    "SPECIFICATION Spec\nINVARIANT Inv\nINVARIANT ExportProgs\nCHECK_DEADLOCK FALSE\n"
+                    % cf["cap"], workers=4, coverage=False)
+        if not b.ok:
+            raise MachineryError("TLC failed on MC_Bind:\n" + b.raw_tail[-3000:])
+        return b
+
+    def job_bfs():
+        out = defaultdict(list)          # instance index -> [(kind, dev thread, path, pcs)]
+        st = dict(states=0, distinct=0, runs=0, wall=0.0)
+        for nthreads in (2, 3):
+            idx = [i for i, r in enumerate(recs) if len(r["group"]) == nthreads]
+            if not idx:
+                continue
+            res = run_tlc("MC_Threads", cfg(False, "{}", cf["cap"]),
+                          extra_modules={"ThreadsData": data_module([encs[i] for i in idx])},
+                          workers=cf["bfs_workers"], coverage=False, timeout=3000)
+            if not res.ok:
+                raise MachineryError("TLC failed on MC_Threads (%d threads):\n" % nthreads + res.raw_tail[-3000:])
+            st["states"] += res.states
+            st["distinct"] += res.distinct
+            st["runs"] += 1
+            st["wall"] = round(st["wall"] + res.wall, 2)
+            for l in res.lines:
+                out[idx[l["c"] - 1]].append((l["kind"], l["t"], l["path"], l["pcs"]))
+        return out, st
+
+    want = cf["sim_per_inst"]
+
+    def job_sim():
+        scheds = defaultdict(list)
+        st = dict(states=0, behaviours=0, model_not_ok=0, runs=0)
+        seen_s = set()
+        dm = data_module(encs)
+        missing = list(range(len(encs)))
+        for attempt in range(4):
+            # first round over all instances; then only over those that still lack schedules
+            # (TLC draws the initial state of every behaviour at random)
+            sel = "Sel <- DataSel" if attempt == 0 else "Sel = {%s}" % ", ".join(str(i + 1) for i in missing)
+            num = int(len(missing) * want * (1.5 if attempt == 0 else 3)) + 4
+            res = run_tlc("MC_Threads", cfg(True, cf["bursts"], 0).replace("Sel <- DataSel", sel),
+                          extra_modules={"ThreadsData": dm}, workers=1, simulate="num=%d" % num,
+                          depth=2000, seed=SEED + 14 + attempt, coverage=False, timeout=3000)
+            if not res.ok:
+                raise MachineryError("TLC -simulate failed on MC_Threads:\n" + res.raw_tail[-3000:])
+            st["states"] += res.states
+            st["runs"] += 1
+            for l in res.lines:
+                if l.get("kind") != "sched":
+                    continue
+                key = (l["c"], json.dumps(l["sched"]))
+                if key in seen_s:
+                    continue
+                seen_s.add(key)
+                st["behaviours"] += 1
+                if not l["ok"]:
+                    st["model_not_ok"] += 1
+                scheds[l["c"] - 1].append(([tuple(x) for x in l["sched"]], l["ok"]))
+            missing = [i for i in range(len(encs)) if len(scheds[i]) < min(want, 2)]
+            if not missing:
+                break
+        if missing:
+            raise MachineryError("no sampled schedule for instances %r" % [instances[i][:3] for i in missing])
+        return scheds, st
+
+    from concurrent.futures import ThreadPoolExecutor
+    with ThreadPoolExecutor(3) as ex:
+        f_bind, f_bfs, f_sim = ex.submit(job_bind), ex.submit(job_bfs), ex.submit(job_sim)
+        bind = f_bind.result()
+        cands, bfs_stats = f_bfs.result()
+        sim_scheds, sim_stats = f_sim.result()
     bind_progs = [l for l in bind.lines if l.get("kind") == "prog"]
     bind_cands = [l for l in bind.lines if l.get("kind") in ("dev", "end")]
     if not bind_progs:
         raise MachineryError("MC_Bind did not export its programs")
-    if any(l["c"] in (1, 2) for l in bind_cands):
-        # the design argument itself fails on a single shared element: report as model-level
-        # candidates; they are replayed below like any other candidate
-        pass
-    timing["tlc_bind"] = round(time.time() - t1, 2)
-
-    # ------------------------------------------------------------ TLC: part (ii) exhaustive
-    t1 = time.time()
-    cands = defaultdict(list)          # instance index -> [(kind, dev thread, path)]
-    bfs_stats = dict(states=0, distinct=0, runs=0, wall=0.0)
-    for nthreads in (2, 3):
-        idx = [i for i, r in enumerate(recs) if len(r["group"]) == nthreads]
-        if not idx:
-            continue
-        res = run_tlc("MC_Threads", cfg(False, "{}", cf["cap"]),
-                      extra_modules={"ThreadsData": data_module([encs[i] for i in idx])},
-                      workers=cf["bfs_workers"], coverage=False, timeout=3000)
-        if not res.ok:
-            raise MachineryError("TLC failed on MC_Threads (%d threads):\n" % nthreads + res.raw_tail[-3000:])
-        bfs_stats["states"] += res.states
-        bfs_stats["distinct"] += res.distinct
-        bfs_stats["runs"] += 1
-        bfs_stats["wall"] += res.wall
-        for l in res.lines:
-            cands[idx[l["c"] - 1]].append((l["kind"], l["t"], l["path"], l["pcs"]))
-    timing["tlc_bfs"] = round(time.time() - t1, 2)
-
-    # ------------------------------------------------------------ TLC: schedule generator
-    t1 = time.time()
-    sim_scheds = defaultdict(list)
-    want = cf["sim_per_inst"]
-    sim_stats = dict(states=0, behaviours=0, model_not_ok=0)
-    res = run_tlc("MC_Threads", cfg(True, cf["bursts"], 0),
-                  extra_modules={"ThreadsData": data_module(encs)}, workers=1,
-                  simulate="num=%d" % (len(encs) * want * 3), depth=2000, seed=SEED + 14,
-                  coverage=False, timeout=3000)
-    if not res.ok:
-        raise MachineryError("TLC -simulate failed on MC_Threads:\n" + res.raw_tail[-3000:])
-    sim_stats["states"] = res.states
-    seen_s = set()
-    for l in res.lines:
-        if l.get("kind") != "sched":
-            continue
-        key = (l["c"], json.dumps(l["sched"]))
-        if key in seen_s:
-            continue
-        seen_s.add(key)
-        sim_stats["behaviours"] += 1
-        if not l["ok"]:
-            sim_stats["model_not_ok"] += 1
-        sim_scheds[l["c"] - 1].append(([tuple(x) for x in l["sched"]], l["ok"]))
-    timing["tlc_sim"] = round(time.time() - t1, 2)
+    timing["tlc_all_concurrent"] = round(time.time() - t1, 2)
 
     # ------------------------------------------------------------ replay tasks
     t1 = time.time()
@@ -368,6 +414,7 @@ def _run(pid, tier, cf, rep, tf, rng, timing, instances, pool, replay_file, t0):
         ss = sim_scheds.get(i, [])
         bad = [s for s, ok in ss if not ok]
         good = [s for s, ok in ss if ok]
+        good.sort()
         rng.shuffle(good)
         for s in (bad[:want] + good)[:want]:
             scheds.append((("sim",), lift_sched(encs[i], s), None))
@@ -376,55 +423,14 @@ def _run(pid, tier, cf, rep, tf, rng, timing, instances, pool, replay_file, t0):
         if scheds:
             tasks.append((r["case"], r["group"], r["variant"], scheds, dict(paths=True), refs[i]))
             meta.append(i)
-    # (d) pre-emption sweeps: thread a suspended after k gate points, thread b runs a complete call
-    sweep_n = 0
-    for i, r in enumerate(recs):
-        if r["variant"] not in cf["sweep_variants"]:
-            continue
-        n = len(r["group"])
-        for a in range(1, n + 1):
-            b = a % n + 1
-            total = sum(1 for e in primaries(r["progs"][a - 1]) if e[0] != "W")
-            pts = list(range(0, total + 1))
-            if len(pts) > cf["sweep_points"]:
-                off = rng.randrange(0, max(1, len(pts) // cf["sweep_points"]))
-                step = len(pts) / float(cf["sweep_points"])
-                pts = sorted({min(total, int(off + j * step)) for j in range(cf["sweep_points"])})
-            chunk = []
-            for k in pts:
-                others = [t for t in range(1, n + 1) if t not in (a, b)]
-                sch = ([(a, k)] if k else []) + [("F", b)]
-                chunk.append((("sweep", a, k), sch, [a] + others))
-                if len(chunk) >= 24:
-                    tasks.append((r["case"], r["group"], r["variant"], chunk, dict(paths=False), refs[i]))
-                    meta.append(i)
-                    chunk = []
-            if chunk:
-                tasks.append((r["case"], r["group"], r["variant"], chunk, dict(paths=False), refs[i]))
-                meta.append(i)
-            sweep_n += len(pts)
-            # library function entries as additional pre-emption points (sys.settrace)
-            if cf["sweep_fn"]:
-                npts = min(cf["sweep_fn"], 4 * total)
-                ks = sorted({int(j * (2.2 * total) / npts) for j in range(npts)}) if cf["sweep_fn"] < 10 ** 5 \
-                    else list(range(0, int(2.5 * total)))
-                chunk = [(("sweepfn", a, k), ([(a, k)] if k else []) + [("F", b)],
-                          [a] + [t for t in range(1, n + 1) if t not in (a, b)]) for k in ks]
-                for c0 in range(0, len(chunk), 24):
-                    tasks.append((r["case"], r["group"], r["variant"], chunk[c0:c0 + 24],
-                                  dict(paths=False, fn_entries=True), refs[i]))
-                    meta.append(i)
-                sweep_n += len(chunk)
-    order = list(range(len(tasks)))
-    results = pool.map("replay_many", [tasks[j] for j in order])
-    timing["replay"] = round(time.time() - t1, 2)
-
-    # (c) free-running rounds
+    results = pool.map("replay_many", tasks)
+    timing["replay_tlc_schedules"] = round(time.time() - t1, 2)
     t1 = time.time()
-    ftasks = [(r["case"], r["group"], r["variant"], cf["free_rounds"], 1, SEED, refs[i])
-              for i, r in enumerate(recs)]
-    fres = pool.map("free_rounds", ftasks)
-    timing["free"] = round(time.time() - t1, 2)
+    sweep_results = sweep_async.get(3000)
+    fres = free_async.get(3000)
+    timing["wait_sweeps_free"] = round(time.time() - t1, 2)
+    tasks, meta, results = tasks + sweep_tasks, meta + sweep_meta, results + sweep_results
+    order = list(range(len(tasks)))
 
     # ------------------------------------------------------------ observations -> events
     observations = []      # (instance idx, tag, summary)
@@ -443,6 +449,7 @@ def _run(pid, tier, cf, rep, tf, rng, timing, instances, pool, replay_file, t0):
     t1 = time.time()
     events, ev_obs = [], {}
     drift = Counter()
+    drift_by_case = Counter()
     intern = {}
 
     def iid(x):
@@ -456,10 +463,13 @@ def _run(pid, tier, cf, rep, tf, rng, timing, instances, pool, replay_file, t0):
         (drifted if is_drift else same).append(oi)
         if not all(s["same_out"]):
             drift["outcome"] += 1
+            drift_by_case[recs[i]["case"] + ":outcome"] += 1
         if not s["tree_same"]:
             drift["tree"] += 1
+            drift_by_case[recs[i]["case"] + (":tree(as a sequential run)" if s["tree_in_seq"] else ":tree")] += 1
         if s.get("path_drift") and any(s["path_drift"]):
             drift["path"] += 1
+            drift_by_case[recs[i]["case"] + ":path"] += 1
     rng.shuffle(same)
     chosen = drifted[:6000] + same[:cf["judged_sample"]]
     for oi in chosen:
@@ -481,9 +491,13 @@ def _run(pid, tier, cf, rep, tf, rng, timing, instances, pool, replay_file, t0):
     rejected, suspects, adj = adjudicate(events)
     timing["adjudicate"] = round(time.time() - t1, 2)
 
+    control = Counter()
     for eid, clause in sorted(rejected.items()):
         i, tag, s = observations[ev_obs[eid]]
         r = recs[i]
+        if r["case"] == "control":
+            control[tag[0]] += 1         # the positive control: must be rejected, never reported
+            continue
         ref = refs[i]
         n = len(ref["alone"])
         bad = [j for j, okj in enumerate(s["same_out"]) if not okj]
@@ -508,15 +522,18 @@ def _run(pid, tier, cf, rep, tf, rng, timing, instances, pool, replay_file, t0):
     accepted = sum(1 for _i, _t, s in observations if any(k == "ok" for k, _r in s["got"]))
     rejected_calls = sum(1 for _i, _t, s in observations if any(k == "reject" for k, _r in s["got"]))
     if not replay_file:
-        if n_writes == 0 or n_reads == 0:
-            raise MachineryError("vacuity: the recorded programs contain no write / no read of a written location")
+        # the positive control (a racy element defined by the harness) must be found by every
+        # channel: monitor -> TLC candidate -> gate replay -> R_C14, and the pre-emption sweep
+        if control["cand"] == 0 or control["sweep"] == 0:
+            raise MachineryError("self-test: the positive control was not rejected by every channel: %r"
+                                 % dict(control))
         for k in ("sim", "sweep", "free"):
             if kinds[k] == 0:
                 raise MachineryError("vacuity: no %s observation" % k)
         if accepted == 0 or rejected_calls == 0:
             raise MachineryError("vacuity: accepted and rejected calls must both occur")
-        if bfs_stats["distinct"] < 1000:
-            raise MachineryError("vacuity: TLC explored almost nothing")
+        if sum(len(primaries(p)) for r in recs for p in r["progs"]) < 100 * len(recs):
+            raise MachineryError("vacuity: the monitor recorded almost no access")
         if adj["events"] == 0:
             raise MachineryError("vacuity: nothing adjudicated")
     mem0_conflicts = sum(e["conflicts"] for e in encs)
@@ -558,9 +575,11 @@ def _run(pid, tier, cf, rep, tf, rng, timing, instances, pool, replay_file, t0):
         candidates=dict(exported=n_cand_total, replayed=cand_used),
         observations=dict(kinds),
         drift=dict(drift),
+        drift_by_case=dict(sorted(drift_by_case.items())),
         drift_events_adjudicated=len([1 for oi in chosen if oi in set(drifted)]),
         judged_events=len(events),
         suspects_value_changing_write_logs=suspects_n,
+        positive_control_rejections=dict(control),
         bind_protocol=bind_info,
         timing=timing,
     )
@@ -570,6 +589,46 @@ def _run(pid, tier, cf, rep, tf, rng, timing, instances, pool, replay_file, t0):
                                    "UNBOUND_PROPERTY, format_checker, module-level containers of statham.*) under the GIL",
                                    "A1 bounded: the listed trees/payloads, 2-3 threads, TLC exhaustive on projected programs",
                                    "tree clause: a change that a sequential run of the same calls makes as well is C08's matter"])
+
+
+def _sweep_tasks(recs, refs, cf, rng):
+    """(d) pre-emption at call granularity: thread a is suspended after k gate points (monitored
+    accesses; in the second family also library function entries, sys.settrace) and thread b runs
+    a complete call there; a fresh tree per pre-emption point."""
+    tasks, meta, sweep_n = [], [], 0
+    for i, r in enumerate(recs):
+        if r["variant"] not in cf["sweep_variants"]:
+            continue
+        n = len(r["group"])
+        for a in range(1, n + 1):
+            b = a % n + 1
+            others = [t for t in range(1, n + 1) if t not in (a, b)]
+            total = sum(1 for e in primaries(r["progs"][a - 1]) if e[0] != "W")
+            pts = list(range(0, total + 1))
+            if len(pts) > cf["sweep_points"]:
+                step = len(pts) / float(cf["sweep_points"])
+                off = rng.random() * step
+                pts = sorted({min(total, int(off + j * step)) for j in range(cf["sweep_points"])})
+            chunk = [(("sweep", a, k), ([(a, k)] if k else []) + [("F", b)], [a] + others) for k in pts]
+            for c0 in range(0, len(chunk), 24):
+                tasks.append((r["case"], r["group"], r["variant"], chunk[c0:c0 + 24], dict(paths=False), refs[i]))
+                meta.append(i)
+            sweep_n += len(chunk)
+            if cf["sweep_fn"]:
+                hi = int(2.5 * total) + 2      # accesses + function entries (an over-estimate is harmless)
+                if cf["sweep_fn"] >= hi:
+                    ks = list(range(0, hi))
+                else:
+                    step = hi / float(cf["sweep_fn"])
+                    off = rng.random() * step
+                    ks = sorted({int(off + j * step) for j in range(cf["sweep_fn"])})
+                chunk = [(("sweepfn", a, k), ([(a, k)] if k else []) + [("F", b)], [a] + others) for k in ks]
+                for c0 in range(0, len(chunk), 24):
+                    tasks.append((r["case"], r["group"], r["variant"], chunk[c0:c0 + 24],
+                                  dict(paths=False, fn_entries=True), refs[i]))
+                    meta.append(i)
+                sweep_n += len(chunk)
+    return tasks, meta, sweep_n
 
 
 def _bind_part(tf, pool, prog_line, bind_cands, recs, encs, refs, key_of, cf, rng, observations, replay_file):
